@@ -127,6 +127,9 @@ func (x *Exec) execFrom(st *State, fr *Frame, b *ssa.BasicBlock, idx int) {
 		case *ssa.Phi:
 		case *ssa.Alloc:
 			fr.regs[v] = x.doAlloc(st, v.Type(), v.Comment)
+			if !v.Heap {
+				st.localRefs = append(st.localRefs, fr.regs[v].S)
+			}
 		case *ssa.BinOp:
 			a, c := x.get(st, fr, v.X), x.get(st, fr, v.Y)
 			fr.regs[v] = x.binop(st, fr, v.Op, a, c, v.Type(), pos)
